@@ -534,6 +534,9 @@ func main() {
 	})
 	ctx.Jobs("roland", 16, func(j int) { roland(j, 16) })
 	ctx.Jobs("mmc", 8, func(j int) { mmcChecks(j, 8) })
+	if !ctx.IsChild() {
+		ctx.RacePairs("sysex")
+	}
 	ctx.Sample(map[string]interface{}{"value": "GMReset {41 10 42 data-set 40 00 7F [00]}", "bytes": "F0 41 10 42 12 40 00 7F 00 41 F7", "corruptions": "each of bytes 5..9 replaced by each of the 127 other 7-bit values"})
 	ctx.Guard(ctx.NontrivialCount() > 10000, "too few corruptions tried")
 	ctx.Finish("manufacturer/device/model ids 0..127 each; every address byte 0..127 (thorough: all 128^3 addresses); payload lengths 1..512 x 3 patterns; request sizes; data-set and data-request; every single-byte corruption (127 values per position) of address, payload and checksum for a representative subset; MMC locate over every field (thorough: all 24x60x60x30x100 time codes) x device ids {0,1,127}; MMC commands 1..0x3F x devices 1..127; non-trivial = corruptions tried")
